@@ -47,7 +47,16 @@ BOOSTS = {
 }
 
 
+SPEC_AXIS = {"boostX": ("x", "beta"), "boostY": ("y", "beta"), "boostZ": ("z", "beta"), "boostXg": ("x", "gamma"), "boostZg": ("z", "gamma")}
+
+
 def f_invariance(system, which, bsys=None, spacelike=False):
+    """Minkowski invariance of the product of two boosted vectors.
+    t-stored: decided directly on the decoded results.  tau-stored (t is derived, not stored): decided
+    modularly - (1) contract: the returned vector denotes the reference boost of the operand (spatial part,
+    stored tau, sign of t), (2) the reference boost preserves the product (on abstraction symbols);
+    (1) and (2) imply the invariance of the product of the decoded results."""
+
     def fn(R):
         lib = R.lib
         a = R.vec(system, "1", tau_nonneg=not spacelike)
@@ -61,51 +70,109 @@ def f_invariance(system, which, bsys=None, spacelike=False):
         ca, cw = spec.cart(lib, a), spec.cart(lib, w)
         if which in BOOSTS:
             op = BOOSTS[which](R)
+            axis, par = SPEC_AXIS[which]
+            pv = R.real(par, par)
+            ref = (lambda c: spec.boost_axis_beta(lib, axis, pv, c)) if par == "beta" else (lambda c: spec.boost_axis_gamma(lib, axis, pv, c))
         elif which == "boost_beta3":
             b, bc = _booster(R, "beta3", bsys)
             op = lambda v: v.boost_beta3(b)
+            ref = lambda c: spec.boost_beta3(lib, bc, c)
         else:
             p, pc = _booster(R, "p4", bsys)
             op = lambda v: v.boost_p4(p)
+            ref = lambda c: spec.boost_p4(lib, pc, c)
+        ref_a, ref_w = ref(ca), ref(cw)
         if spacelike:
             # a boost can turn the time component of a spacelike vector negative, which tau storage
             # (t >= 0 by convention) cannot represent: assume the exact result is representable
-            rac = spec.cart(lib, op(R.build(("xy", "z", "t"), ca)))
-            R.assume(rac[3] > 0)
+            R.assume(ref_a[3] > 0)
         ra, rw = op(a), op(w)
-        cra, crw = spec.cart(lib, ra), spec.cart(lib, rw)
-        goals = [("minkowski-product", G.eq(laws.mdot(cra, crw), laws.mdot(ca, cw)))]
-        if system[2] == "tau":
-            # proper time of a tau-stored vector is the stored value itself
-            goals.append(("tau-untouched", G.eq(ra.tau, a.tau)))
-            if spacelike:
-                goals.append(("tau2", G.eq(laws.mdot(cra, cra), laws.mdot(ca, ca))))
-        else:
+        goals = []
+        if system[2] == "t":
+            cra, crw = spec.cart(lib, ra), spec.cart(lib, rw)
+            goals.append(("minkowski-product", G.eq(laws.mdot(cra, crw), laws.mdot(ca, cw))))
             goals.append(("tau2", G.eq(laws.mdot(cra, cra), laws.mdot(ca, ca))))
+        else:
+            # (1) contract
+            sa, coa = lanes.stored(ra)
+            cra3 = spec.decode(lib, sa[:2], coa[:3])
+            for i, nm in enumerate("xyz"):
+                goals.append((f"contract.{nm}", G.eq(cra3[i], ref_a[i])))
+            goals.append(("contract.tau-untouched", G.eq(ra.tau, a.tau)))
+            goals.append(("contract.stored-as-tau", G.true(sa[2] == "tau")))
+            goals.append(("contract.t>=0", G.ge(ref_a[3], 0)))
+            crw = spec.cart(lib, rw)
+            for i, nm in enumerate("xyzt"):
+                goals.append((f"contract-w.{nm}", G.eq(crw[i], ref_w[i])))
+            # (2) the reference boost is a Lorentz transformation
+            goals.append(("reference.minkowski-product", G.eq(laws.mdot(ref_a, ref_w), laws.mdot(ca, cw))))
+            goals.append(("reference.tau2", G.eq(laws.mdot(ref_a, ref_a), laws.mdot(ca, ca))))
         goals.append(("dimension", G.true(len(lanes.stored(ra)[0]) == 3, "boosted vector stays 4D")))
         return goals
 
     return fn
 
 
+def _contract(R, got, operand, ref, label):
+    """the returned vector denotes the reference transform `ref` (Cartesian list) of `operand`"""
+    lib = R.lib
+    sa, coa = lanes.stored(got)
+    goals = []  # (the result may be stored in another system of the 12: every system has its own contract family)
+    c3 = spec.decode(lib, sa[:2], coa[:3])
+    for i, nm in enumerate("xyz"):
+        goals.append((f"{label}.{nm}", G.eq(c3[i], ref[i])))
+    if sa[2] == "tau" and lanes.stored(operand)[0][2] == "tau":
+        goals.append((f"{label}.tau-untouched", G.eq(coa[3], lanes.stored(operand)[1][3])))
+        goals.append((f"{label}.t>=0", G.ge(ref[3], 0)))
+    elif sa[2] == "tau":
+        goals.append((f"{label}.tau2", G.eq(coa[3] * coa[3], laws.mdot(ref, ref))))
+        goals.append((f"{label}.t>=0", G.ge(ref[3], 0)))
+    else:
+        goals.append((f"{label}.t", G.eq(coa[3], ref[3])))
+    return goals
+
+
 def f_inverse_axis(system, axis):
+    """tau-stored vectors: contract of one step from an arbitrary symbolic vector of the system + the law on
+    the reference boosts (two-level); t-stored: additionally the nested public calls directly"""
+
     def fn(R):
+        lib = R.lib
         b = R.real("beta", "beta")
         v = R.vec(system, "1")
-        m = getattr(v, f"boost{axis}")
-        back = getattr(m(beta=b), f"boost{axis}")(beta=-b)
-        return laws.same_vector(R, back, v, "inverse")
+        c = spec.cart(lib, v)
+        ax = axis.lower()
+        one = getattr(v, f"boost{axis}")(beta=b)
+        ref1 = spec.boost_axis_beta(lib, ax, b, c)
+        goals = _contract(R, one, v, ref1, "step")
+        back_ref = spec.boost_axis_beta(lib, ax, -b, ref1)
+        goals += [(f"reference-inverse.{nm}", G.eq(x, y)) for nm, x, y in zip("xyzt", back_ref, c)]
+        if system[2] == "t":
+            back = getattr(one, f"boost{axis}")(beta=-b)
+            goals += laws.same_vector(R, back, v, "inverse")
+        return goals
 
     return fn
 
 
 def f_compose_axis(system, axis):
     def fn(R):
+        lib = R.lib
         b1, b2 = R.real("beta1", "beta"), R.real("beta2", "beta")
         v = R.vec(system, "1")
-        two = getattr(getattr(v, f"boost{axis}")(beta=b1), f"boost{axis}")(beta=b2)
-        one = getattr(v, f"boost{axis}")(beta=(b1 + b2) / (1 + b1 * b2))
-        return laws.same_vector(R, two, one, "velocity-addition")
+        c = spec.cart(lib, v)
+        ax = axis.lower()
+        b12 = (b1 + b2) / (1 + b1 * b2)
+        first = getattr(v, f"boost{axis}")(beta=b1)
+        goals = _contract(R, first, v, spec.boost_axis_beta(lib, ax, b1, c), "step")
+        two_ref = spec.boost_axis_beta(lib, ax, b2, spec.boost_axis_beta(lib, ax, b1, c))
+        one_ref = spec.boost_axis_beta(lib, ax, b12, c)
+        goals += [(f"reference-velocity-addition.{nm}", G.eq(x, y)) for nm, x, y in zip("xyzt", two_ref, one_ref)]
+        if system[2] == "t":
+            two = getattr(first, f"boost{axis}")(beta=b2)
+            one = getattr(v, f"boost{axis}")(beta=b12)
+            goals += laws.same_vector(R, two, one, "velocity-addition")
+        return goals
 
     return fn
 
@@ -114,10 +181,17 @@ def f_inverse_beta3(system, bsys):
     def fn(R):
         lib = R.lib
         v = R.vec(system, "1")
+        c = spec.cart(lib, v)
         b, bc = _booster(R, "beta3", bsys)
         nb = R.build(("xy", "z"), [-bc[0], -bc[1], -bc[2]])
-        back = v.boost_beta3(b).boost_beta3(nb)
-        return laws.same_vector(R, back, v, "inverse")
+        one = v.boost_beta3(b)
+        ref1 = spec.boost_beta3(lib, bc, c)
+        goals = _contract(R, one, v, ref1, "step")
+        back_ref = spec.boost_beta3(lib, [-bc[0], -bc[1], -bc[2]], ref1)
+        goals += [(f"reference-inverse.{nm}", G.eq(x, y)) for nm, x, y in zip("xyzt", back_ref, c)]
+        if system[2] == "t":
+            goals += laws.same_vector(R, one.boost_beta3(nb), v, "inverse")
+        return goals
 
     return fn
 
@@ -143,12 +217,29 @@ def f_spellings_axis(system, axis):
 
 
 def f_p4_vs_beta3(system, bsys):
+    """boost_p4(p) = boost_beta3(p.to_beta3()); boost()/boostCM_of() dispatch to the 4D spellings.
+    Both spellings are tied to the same reference boost (contracts); t-stored vectors also directly."""
+
     def fn(R):
+        lib = R.lib
         v = R.vec(system, "1")
+        c = spec.cart(lib, v)
         p, pc = _booster(R, "p4", bsys)
-        goals = laws.same_vector(R, v.boost_p4(p), v.boost_beta3(p.to_beta3()), "p4-vs-beta3")
-        goals += laws.same_vector(R, v.boost(p), v.boost_p4(p), "boost-dispatch-4D")
-        goals += laws.same_vector(R, v.boostCM_of(p), v.boostCM_of_p4(p), "boostCM_of-dispatch-4D")
+        ref = spec.boost_p4(lib, pc, c)
+        r_p4 = v.boost_p4(p)
+        b3 = p.to_beta3()
+        b3c = spec.cart(lib, b3)
+        goals = [(f"to_beta3.{nm}", G.eq(x, y / pc[3])) for nm, x, y in zip("xyz", b3c, pc)]
+        r_b3 = v.boost_beta3(b3)
+        goals += _contract(R, r_p4, v, ref, "boost_p4")
+        goals += _contract(R, r_b3, v, ref, "boost_beta3(to_beta3)")
+        r_boost = v.boost(p)
+        goals += _contract(R, r_boost, v, ref, "boost(4D)")
+        refcm = spec.boost_p4(lib, [-pc[0], -pc[1], -pc[2], pc[3]], c)
+        goals += _contract(R, v.boostCM_of_p4(p), v, refcm, "boostCM_of_p4")
+        goals += _contract(R, v.boostCM_of(p), v, refcm, "boostCM_of(4D)")
+        if system[2] == "t":
+            goals += laws.same_vector(R, r_p4, r_b3, "p4-vs-beta3")
         return goals
 
     return fn
@@ -156,12 +247,19 @@ def f_p4_vs_beta3(system, bsys):
 
 def f_dispatch3(system, bsys):
     def fn(R):
+        lib = R.lib
         v = R.vec(system, "1")
+        c = spec.cart(lib, v)
         b, bc = _booster(R, "beta3", bsys)
-        goals = laws.same_vector(R, v.boost(b), v.boost_beta3(b), "boost-dispatch-3D")
-        goals += laws.same_vector(R, v.boostCM_of(b), v.boostCM_of_beta3(b), "boostCM_of-dispatch-3D")
-        nb = R.build(("xy", "z"), [-bc[0], -bc[1], -bc[2]])
-        goals += laws.same_vector(R, v.boostCM_of_beta3(b), v.boost_beta3(nb), "CM-is-opposite-boost")
+        ref = spec.boost_beta3(lib, bc, c)
+        refcm = spec.boost_beta3(lib, [-bc[0], -bc[1], -bc[2]], c)
+        goals = _contract(R, v.boost(b), v, ref, "boost(3D)")
+        goals += _contract(R, v.boost_beta3(b), v, ref, "boost_beta3")
+        goals += _contract(R, v.boostCM_of(b), v, refcm, "boostCM_of(3D)")
+        goals += _contract(R, v.boostCM_of_beta3(b), v, refcm, "boostCM_of_beta3")
+        if system[2] == "t":
+            nb = R.build(("xy", "z"), [-bc[0], -bc[1], -bc[2]])
+            goals += laws.same_vector(R, v.boostCM_of_beta3(b), v.boost_beta3(nb), "CM-is-opposite-boost")
         return goals
 
     return fn
